@@ -510,7 +510,8 @@ class Engine:
         if named is not None:
             vals = dict((k, s.operand(st, fn, fid, v)) for k, v in named)
             fields = s.struct_fields(p)
-            if fields is None or set(fields) != set(vals): fields = sorted(vals) if fields is None else fields
+            if fields is None: fields = [k for k, _ in named]      # a struct the source scan does not know (declared inside a function): MIR prints the fields in declaration order
+            elif set(fields) != set(vals): fields = fields
             if p.startswith('std::ops::Range'): fields = [f for f in ('start', 'end') if f in vals]
             return T([vals[k] for k in fields], p)
         return T([s.operand(st, fn, fid, x) for x in pos], p)
@@ -843,7 +844,18 @@ class Engine:
     def find_method(s, ty, trait_last, method, crate=None):
         idx = s.method_index()
         c = idx.get((ty, trait_last, method))
-        if c is None: c = idx.get((ty.split('::')[-1], trait_last, method))
+        if c is None:
+            # fall back on the last path segment (types declared inside a function carry the function in their path), but only
+            # among impls of the crate the type lives in: two types with the same simple name (types::command::AliasCommand of the
+            # core crate, the AliasCommand local to the SDK's alias command) must not share methods
+            c = idx.get((ty.split('::')[-1], trait_last, method))
+            if c and '::' in ty:
+                top = ty.lstrip('<').split('::')[0]
+                own = 'sdk' if top in ('sdk', 'utils') else 'core' if top in ('expansion', 'parser', 'preprocessor', 'runner') else None
+                if own is not None: c = [f for f in c if f.crate == own]
+                tyn = ty.lstrip('<'); mod = tyn.rsplit('::', 1)[0]
+                near = [f for f in c if tyn.startswith(f.name.split('::<impl')[0] + '::') or f.name.split('::<impl')[0].startswith(mod)]
+                c = near          # an impl block in an unrelated module is not taken for this type
         if not c: return None
         if len(c) > 1 and crate is not None:
             c2 = [f for f in c if f.crate == crate]
